@@ -150,6 +150,15 @@ func (in *inliner) expand(e ast.Expr, depth int) ast.Expr {
 	}
 	info := in.fi.Pkg.TypesInfo
 	switch v := e.(type) {
+	case *ast.Ident:
+		// a boolean local holding a hoisted test (full := buf.Len() >= max) stands for that test,
+		// provided nothing between its definition and this use can change what the test reads
+		if d := in.boolLocalDef(v); d != nil {
+			sub := in.expand(d, depth+1)
+			n := &ast.ParenExpr{Lparen: v.Pos(), X: sub, Rparen: v.End()}
+			info.Types[n] = info.Types[v]
+			return n
+		}
 	case *ast.ParenExpr:
 		if x := in.expand(v.X, depth); x != v.X {
 			n := &ast.ParenExpr{Lparen: v.Lparen, X: x, Rparen: v.Rparen}
@@ -215,4 +224,141 @@ func condKey(info *types.Info, norm func(ast.Expr) string, cond ast.Expr, val bo
 		}
 	}
 	return fmt.Sprintf("%s=%v", norm(cond), val)
+}
+
+// boolLocalDef: the defining expression of a boolean local that is assigned exactly once, when no call
+// statement and no assignment to a variable or field mentioned in that expression lies between the
+// definition and the use (so the hoisted test still means the same at the use).
+func (in *inliner) boolLocalDef(id *ast.Ident) ast.Expr {
+	info := in.fi.Pkg.TypesInfo
+	obj, ok := info.Uses[id].(*types.Var)
+	if !ok || obj.IsField() || obj.Parent() == nil || obj.Parent() == obj.Pkg().Scope() {
+		return nil
+	}
+	if b, ok := obj.Type().Underlying().(*types.Basic); !ok || b.Kind() != types.Bool {
+		return nil
+	}
+	var def ast.Expr
+	var defStmt ast.Stmt
+	n := 0
+	ast.Inspect(in.fi.Decl.Body, func(m ast.Node) bool {
+		switch v := m.(type) {
+		case *ast.AssignStmt:
+			if len(v.Lhs) == len(v.Rhs) {
+				for i, l := range v.Lhs {
+					if lid, ok := l.(*ast.Ident); ok && info.ObjectOf(lid) == obj {
+						def, defStmt = v.Rhs[i], v
+						n++
+					}
+				}
+			}
+		case *ast.ValueSpec:
+			for i, nm := range v.Names {
+				if info.Defs[nm] == obj {
+					n++
+					if i < len(v.Values) {
+						def = v.Values[i]
+					} else {
+						n++ // declared without a value and assigned later: not a single definition
+					}
+				}
+			}
+		}
+		return true
+	})
+	if n != 1 || def == nil || defStmt == nil {
+		return nil
+	}
+	if _, isCall := ast.Unparen(def).(*ast.CallExpr); isCall {
+		return nil // the result of a call is a value, not a re-evaluable test
+	}
+	mentioned := map[string]bool{}
+	ast.Inspect(def, func(m ast.Node) bool {
+		switch v := m.(type) {
+		case *ast.SelectorExpr:
+			mentioned[types.ExprString(v)] = true
+		case *ast.Ident:
+			mentioned[v.Name] = true
+		}
+		return true
+	})
+	safe := true
+	// judge(s): a statement that executes completely between the definition and the use
+	judge := func(s ast.Node) {
+		ast.Inspect(s, func(m ast.Node) bool {
+			switch v := m.(type) {
+			case *ast.CallExpr:
+				if tv, ok := info.Types[v.Fun]; !ok || !tv.IsType() {
+					if fid, isId := v.Fun.(*ast.Ident); !isId || (fid.Name != "len" && fid.Name != "cap") {
+						safe = false
+					}
+				}
+			case *ast.AssignStmt:
+				for _, l := range v.Lhs {
+					if mentioned[types.ExprString(ast.Unparen(l))] {
+						safe = false
+					}
+				}
+			case *ast.IncDecStmt:
+				if mentioned[types.ExprString(ast.Unparen(v.X))] {
+					safe = false
+				}
+			}
+			return true
+		})
+	}
+	// walk only the statements on the way to the use: siblings that precede it, not the other arms
+	var walk func(list []ast.Stmt)
+	contains := func(n ast.Node) bool { return n != nil && n.Pos() <= id.Pos() && id.End() <= n.End() }
+	var descend func(s ast.Stmt)
+	descend = func(s ast.Stmt) {
+		switch v := s.(type) {
+		case *ast.BlockStmt:
+			walk(v.List)
+		case *ast.IfStmt:
+			if v.Init != nil && !contains(v.Init) {
+				judge(v.Init)
+			}
+			switch {
+			case contains(v.Cond):
+			case contains(v.Body):
+				walk(v.Body.List)
+			case v.Else != nil && contains(v.Else):
+				descend(v.Else)
+			}
+		case *ast.ForStmt:
+			if contains(v.Body) {
+				judge(v.Body) // earlier iterations
+			}
+		case *ast.RangeStmt:
+			if contains(v.Body) {
+				judge(v.Body)
+			}
+		case *ast.SwitchStmt:
+			for _, cs := range v.Body.List {
+				if cl := cs.(*ast.CaseClause); contains(cl) {
+					walk(cl.Body)
+				}
+			}
+		}
+	}
+	walk = func(list []ast.Stmt) {
+		for _, s := range list {
+			if contains(s) {
+				descend(s)
+				return
+			}
+			if s.Pos() > defStmt.End() {
+				judge(s)
+			} else if s != defStmt && s.Pos() <= defStmt.Pos() && defStmt.End() <= s.End() {
+				// the definition is nested in an earlier statement: too far apart to reason about
+				safe = false
+			}
+		}
+	}
+	walk(in.fi.Decl.Body.List)
+	if !safe {
+		return nil
+	}
+	return def
 }
